@@ -28,7 +28,7 @@ import (
 // accepts: integers and plain decimals with an optional sign, quoted strings (NULL literals and IS NULL are not
 // accepted by the front end).
 // (rank 4 is the largest integer whose B-tree key does not start with ff ff, see KF-C17-btree-ffff-stopper)
-var intVals = []int32{-65536, 0, 1, 7, 2147418111, 2147483647}
+var intVals = []int32{-2147483648, 0, 1, 7, 2147418111, 2147483647} // (rank 0: the smallest integer, which the engine also uses as its "minus infinity" value)
 
 // ffRanks: ranks of the integer domain whose order-preserving index key starts with the bytes ff ff
 func ffRanks() []int {
